@@ -99,6 +99,58 @@ def chain(run, p):
     run.floor('C16-CHAIN', n, 900)
 
 
+def readargs(run, p, dtype_table):
+    """to_pandas_read_csv_args evaluated on stand-in metadata: the dtype argument lists exactly the non-date fields with their
+    table dtype, date fields are parsed as dates with their formats, boolean spellings of every column are all there."""
+    from ..pyeval import Model
+    f = p.fn('tdda.serial.pandasio.to_pandas_read_csv_args')
+
+    class Field(Model):
+        def __init__(self, name, mtype, format=None, altnames=None):
+            self.name, self.mtype, self.format, self.altnames = name, mtype, format, altnames
+
+    class MD(Model):
+        def __init__(self, fields, delimiter=None, encoding=None, header_rows=1):
+            self.fields, self.delimiter, self.encoding, self.header_rows = fields, delimiter, encoding, header_rows
+    base = [Field('a', 'int'), Field('b', 'string'), Field('c', 'date', '%d/%m/%Y'), Field('d', 'datetime'),
+            Field('e', 'bool', 'Y|N'), Field('f', 'bool', 'yes|no'), Field('g', 'number'), Field('h', 'date_tz')]
+    cases = {
+        'plain': MD(list(base)),
+        'titles-and-no-header': MD([Field(x.name, x.mtype, x.format, [x.name]) for x in base], delimiter='|', encoding='latin-1', header_rows=0),
+        'one-boolean': MD([Field('e', 'bool', 'T|F'), Field('a', 'int')]),
+    }
+    for cname, md in sorted(cases.items()):
+        I = Interp(p)
+        I.extra_names['print'] = lambda *a, **k: None
+        try:
+            kw = I.call(f, [md])
+        except Unsupported as e:
+            raise AnalysisError('to_pandas_read_csv_args is not evaluable: %s' % e)
+        names = [x.name for x in md.fields]
+        dates = [x.name for x in md.fields if x.mtype and x.mtype.startswith('date')]
+        want_dtype = {x.name: dtype_table.get(x.mtype) for x in md.fields if x.name not in dates and dtype_table.get(x.mtype) is not None}
+        bools = [x.format.split('|') for x in md.fields if x.mtype == 'bool' and x.format]
+        problems = []
+        if (kw.get('dtype') or {}) != want_dtype:
+            problems.append('dtype=%r (expected %r)' % (kw.get('dtype'), want_dtype))
+        if (kw.get('parse_dates') or []) != dates:
+            problems.append('parse_dates=%r (expected %r)' % (kw.get('parse_dates'), dates))
+        if dates and {k: v for k, v in (kw.get('date_format') or {}).items()} != {x.name: x.format for x in md.fields if x.name in dates}:
+            problems.append('date_format=%r' % (kw.get('date_format'),))
+        if sorted(kw.get('true_values') or []) != sorted({b_[0] for b_ in bools}) or sorted(kw.get('false_values') or []) != sorted({b_[1] for b_ in bools}):
+            problems.append('true/false values %r / %r (expected %r)' % (kw.get('true_values'), kw.get('false_values'), bools))
+        if any(x.altnames for x in md.fields) and kw.get('names') != names:
+            problems.append('names=%r (expected %r)' % (kw.get('names'), names))
+        if md.header_rows == 0 and kw.get('header', 'unset') is not None:
+            problems.append('header=%r for a header-less file' % (kw.get('header', 'unset'),))
+        if md.delimiter and kw.get('sep') != md.delimiter:
+            problems.append('sep=%r' % (kw.get('sep'),))
+        if md.encoding and kw.get('encoding') != md.encoding:
+            problems.append('encoding=%r' % (kw.get('encoding'),))
+        run.ob('C16-TYPES', 'read_csv-arguments:%s' % cname, not problems,
+               'read_csv arguments for the %s metadata: %s' % (cname, 'as declared' if not problems else '; '.join(problems)), fn=f)
+
+
 def dkeys(run, p):
     run.rule('C16-DKEYS', 'every key read from the dialect description is a W3C dialect key, and a value is stored under the name of the key '
                           'it was read from (an attribute or local named for one key is not filled from another); numeric options are '
@@ -147,17 +199,7 @@ def types(run, p):
         ok = got == mt and (dt is None or b.get(got) == dt)
         run.ob('C16-TYPES', 'type:%s' % t, ok, 'CSVW %s -> %s -> %s (documented %s -> %s)' % (t, got, b.get(got), mt, dt or 'parsed as dates'),
                rel='tdda/serial/csvw.py', line=1, nontrivial=False)
-    f = p.fn('tdda.serial.pandasio.to_pandas_read_csv_args')
-    ok = False
-    for s in ast.walk(f.node):
-        if isinstance(s, ast.Assign) and any(norm(t) == "kw['dtype']" for t in s.targets):
-            comp = [c for c in ast.walk(s.value) if isinstance(c, ast.DictComp)]
-            if comp:
-                conds = ' and '.join(norm(i) for g in comp[0].generators for i in g.ifs)
-                ok = 'not in date_fields' in conds
-    df = [s for s in ast.walk(f.node) if isinstance(s, ast.Assign) and any(norm(t) == 'date_fields' for t in s.targets)]
-    ok = ok and bool(df) and "startswith('date')" in norm(df[0].value)
-    run.ob('C16-TYPES', 'nodate', ok, 'the dtype mapping skips every field whose metadata type starts with "date"', fn=f)
+    readargs(run, p, b)
     run.floor('C16-TYPES', 2 + len(SPEC_TYPES), 9)
 
 
